@@ -378,26 +378,9 @@ func timeReaderAllowed(fn *ssa.Function) (bool, string) {
 }
 
 func loopHeaderOf(b *ssa.BasicBlock) *ssa.BasicBlock {
-	// innermost header: a block that dominates b, is reachable from b, and has a back edge
-	var best *ssa.BasicBlock
-	for _, h := range b.Parent().Blocks {
-		if !h.Dominates(b) {
-			continue
-		}
-		isHeader := false
-		for _, p := range h.Preds {
-			if h.Dominates(p) {
-				isHeader = true
-			}
-		}
-		if !isHeader || !(h == b || blockReachesBlock(b, h)) {
-			continue
-		}
-		if best == nil || best.Dominates(h) {
-			best = h
-		}
-	}
-	return best
+	// innermost natural loop whose body contains b (a loop that merely precedes b
+	// also has a dominating header, but b is not part of it)
+	return enclosingLoop(b)
 }
 
 func posOf(in ssa.Instruction, fn *ssa.Function) token.Pos {
